@@ -109,6 +109,9 @@ fn plan(prop: &str, o: &mut Out) {
             let c = o.q(3000, 200000);
             g_numerals(o, "parse_str", &["dyn", "big"], c);
             g_specials(o);
+            // "every accepted numeral, integer or float": the width chosen for integers and floats as well
+            g_from_int_types(o, &["dyn", "big"]);
+            g_from_float(o, &["dyn", "big"]);
         }
         "C08" => {
             let pats = last_byte_patterns(o);
